@@ -32,6 +32,7 @@ fn solver_of(n: u64) -> SolverType {
 fn parse_sent(v: &Value) -> Result<Sentence<'static, 'static>, ()> {
     let s = cps_to_string(&v["s"]);
     let r = catch_unwind(AssertUnwindSafe(|| match v["fmt"].as_str().unwrap_or("tok") {
+        "build" => Ok(build_sentence(&v["sent"])),
         "tok" => Sentence::from_tokenized(&s).map_err(|_| ()),
         "part" => Sentence::from_partial_annotation(&s).map_err(|_| ()),
         _ => Sentence::from_raw(s.clone()).map_err(|_| ()),
@@ -169,6 +170,9 @@ pub fn run_case(case: &Value) -> Value {
         }
     };
     out["write"] = json!("ok");
+    if case["want_bytes"].as_bool().unwrap_or(false) {
+        out["model_bytes"] = json!(bytes);
+    }
     match mmodel_decode(&bytes) {
         Some(mm) => {
             out["weights_i16"] = json!(i16_ok(&mm));
